@@ -33,7 +33,7 @@ use std::path::PathBuf;
 
 use alloc::collections::BTreeMap;
 use alloc::string::{String, ToString};
-use alloc::{vec, vec::Vec};
+use alloc::vec::Vec;
 use core::cell::RefCell;
 
 use combine::Parser;
@@ -202,6 +202,25 @@ impl Tzif {
 
     pub fn posix_tz_string(&self) -> Option<&PosixTzString> {
         self.footer.as_ref()
+    }
+
+    /// Every UTC offset (in seconds) the zone uses: those of its local time types and of its footer.
+    pub fn utc_offsets(&self) -> TemporalResult<Vec<i64>> {
+        let db = self.get_data_block2()?;
+        let mut offsets: Vec<i64> = db
+            .local_time_type_records
+            .iter()
+            .map(|record| record.utoff.0)
+            .collect();
+        if let Some(posix_tz_string) = self.posix_tz_string() {
+            offsets.push(LocalTimeRecord::from_standard_time(&posix_tz_string.std_info).offset);
+            if let Some(dst) = &posix_tz_string.dst_info {
+                offsets.push(LocalTimeRecord::from_daylight_savings_time(&dst.variant_info).offset);
+            }
+        }
+        offsets.sort_unstable();
+        offsets.dedup();
+        Ok(offsets)
     }
 
     pub fn get_data_block2(&self) -> TemporalResult<&DataBlock> {
@@ -622,24 +641,18 @@ impl TimeZoneProvider for FsTzdbProvider {
         iso_datetime: IsoDateTime,
     ) -> TemporalResult<Vec<EpochNanoseconds>> {
         let epoch_nanos = iso_datetime.as_nanoseconds()?;
-        let seconds = (epoch_nanos.0 / 1_000_000_000) as i64;
         let tzif = self.get(identifier)?;
-        let local_time_record_result = tzif.v2_estimate_tz_pair(&Seconds(seconds))?;
-        let result = match local_time_record_result {
-            LocalTimeRecordResult::Empty => Vec::default(),
-            LocalTimeRecordResult::Single(r) => {
-                let epoch_ns =
-                    EpochNanoseconds::try_from(epoch_nanos.0 - seconds_to_nanoseconds(r.offset))?;
-                vec![epoch_ns]
+        // A UTC offset maps the local date-time onto the instant `local - offset`; that instant
+        // reads as the local date-time exactly when the offset is the one in force at it.
+        let mut result = Vec::new();
+        for offset in tzif.utc_offsets()? {
+            let candidate = epoch_nanos.0 - seconds_to_nanoseconds(offset);
+            let seconds = candidate.div_euclid(1_000_000_000) as i64;
+            if tzif.get(&Seconds(seconds))?.offset == offset {
+                result.push(EpochNanoseconds::try_from(candidate)?);
             }
-            LocalTimeRecordResult::Ambiguous { std, dst } => {
-                let std_epoch_ns =
-                    EpochNanoseconds::try_from(epoch_nanos.0 - seconds_to_nanoseconds(std.offset))?;
-                let dst_epoch_ns =
-                    EpochNanoseconds::try_from(epoch_nanos.0 - seconds_to_nanoseconds(dst.offset))?;
-                vec![std_epoch_ns, dst_epoch_ns]
-            }
-        };
+        }
+        result.sort();
         Ok(result)
     }
 
